@@ -11,6 +11,9 @@ def check(run):
     std(run)
     for mod, cls in KINDS:
         verify.verify(run, c.E, c.contracts["rt:%s.%s" % (mod, cls)])
+        # the same cycle on a payload of fixed shape (2 variants, 2 arches, 2 records, a null leaf) with symbolic keys and leaves:
+        # structural equality, so a reader/writer that REBUILDS the payload is still decided (the verbatim clause above is then undecided)
+        verify.verify(run, c.E, c.contracts["rt:%s.%s:shape" % (mod, cls)])
     verify.verify(run, c.E, c.contracts["ser:composeinfo.Compose"], only=("documented_layout", "other_keys_unchanged", "object_unchanged"))
     verify.verify(run, c.E, c.contracts["rt:composeinfo.Compose"])
     # payload.json_stable: what `add` files is JSON-representable (str keys, str/None/caller leaves): postconditions of the adds
